@@ -253,25 +253,41 @@ func rulePlayLoop(c *Ctx) {
 	}
 	c.site(1)
 	name := fname(fn)
-	V := firstCall(fn, staticOf("op.Instance.Validate"))
-	U := firstCall(fn, staticOf("play.midiArgs.update"))
-	W := firstCall(fn, staticOf("play.midiArgs.writeWhenUpdated"))
-	R := firstCall(fn, invokeOf("midix.Writer", "Rest"))
-	K := firstCall(fn, staticOf("play.midiArgs.getKey"))
-	A := firstCall(fn, staticOf("play.Key.Apply"))
-	N := firstCall(fn, invokeOf("midix.Writer", "Note"))
-	GV := firstCall(fn, staticOf("play.midiArgs.getVelocity"))
-	CL := firstCall(fn, invokeOf("midix.Writer", "Close"))
+	// the calls may sit in helpers extracted from Write: look at its whole region (the named steps themselves are not looked into)
+	steps := map[string]bool{"update": true, "writeWhenUpdated": true, "getKey": true, "getVelocity": true, "Apply": true}
+	region := c.regionCalls(fn, func(f *ssa.Function) bool { return !f.Object().Exported() && !steps[f.Name()] })
+	tr := &tracer{c: c, stop: func(f *ssa.Function) bool { return steps[f.Name()] || (f.Object() != nil && f.Object().Exported()) }}
+	first := func(pred func(ssa.CallInstruction) bool) *rcall {
+		for i := range region {
+			if pred(region[i].call) {
+				return &region[i]
+			}
+		}
+		return nil
+	}
+	li := func(rc *rcall) linstr { return linstr{rc.call, rc.chain} }
+	arg := func(rc *rcall, i int) lval { return tr.trace(lval{rc.call.Common().Args[i], rc.fn, rc.chain}) }
+	V := first(staticOf("op.Instance.Validate"))
+	U := first(staticOf("play.midiArgs.update"))
+	W := first(staticOf("play.midiArgs.writeWhenUpdated"))
+	R := first(invokeOf("midix.Writer", "Rest"))
+	K := first(staticOf("play.midiArgs.getKey"))
+	A := first(staticOf("play.Key.Apply"))
+	N := first(invokeOf("midix.Writer", "Note"))
+	GV := first(staticOf("play.midiArgs.getVelocity"))
+	CL := first(invokeOf("midix.Writer", "Close"))
 	var problems []string
-	need := map[string]ssa.CallInstruction{"Validate": V, "update": U, "writeWhenUpdated": W, "Rest": R, "getKey": K, "Apply": A, "Note": N, "getVelocity": GV, "Close": CL}
+	need := map[string]*rcall{"Validate": V, "update": U, "writeWhenUpdated": W, "Rest": R, "getKey": K, "Apply": A, "Note": N, "getVelocity": GV, "Close": CL}
+	missing := false
 	for _, k := range sortedKeys(need) {
 		if need[k] == nil {
 			problems = append(problems, "call to "+k+" not found")
+			missing = true
 		}
 	}
-	if len(problems) == 0 {
-		dom := func(a, b ssa.CallInstruction, what string) {
-			if !dominatesInstr(a, b) {
+	if !missing {
+		dom := func(a, b *rcall, what string) {
+			if !regionDominates(li(a), li(b)) {
 				problems = append(problems, what)
 			}
 		}
@@ -282,30 +298,32 @@ func rulePlayLoop(c *Ctx) {
 		dom(U, K, "the key in force is read before the instance's own key is applied: a chord that carries a key change is played in the old key")
 		dom(K, A, "Apply runs before the key is read")
 		dom(A, N, "Note is written before the pitches are computed")
-		// all inside one loop over all instances
-		l := enclosingRangeLoop(U.Block())
-		if l == nil || !l.blocks[N.Block()] || !l.blocks[V.Block()] || !l.blocks[R.Block()] {
+		// all inside one loop of Write over all instances
+		l := enclosingRangeLoop(li(U).at(0).Block())
+		inL := func(rc *rcall) bool { return l.blocks[li(rc).at(0).Block()] }
+		if l == nil || !inL(N) || !inL(V) || !inL(R) {
 			problems = append(problems, "Validate/update/Rest/Note are not in one loop over the instances")
 		} else {
 			if call, ok := l.bound.(*ssa.Call); !ok || calleeName(&call.Call) != "builtin.len" || call.Call.Args[0] != ssa.Value(fn.Params[2]) {
 				problems = append(problems, "the loop does not cover all instances")
 			}
 			// same instance everywhere: Validate's and update's argument and the chord come from instances[index]
-			for label, v := range map[string]ssa.Value{"Validate": V.Common().Args[0], "update": U.Common().Args[1], "Apply": A.Common().Args[1]} {
-				if !c.derivesFromElement(v, fn.Params[2], l.index) {
+			for label, v := range map[string]lval{"Validate": arg(V, 0), "update": arg(U, 1), "Apply": arg(A, 1)} {
+				if !derivesFromElementL(tr, v, fn.Params[2], l.index) {
 					problems = append(problems, label+" is not applied to instances[i]")
 				}
 			}
 			// Close: exactly once, outside the loop, after it, success path; nothing written after
-			if l.blocks[CL.Block()] {
+			if inL(CL) || len(CL.chain) != 0 {
 				problems = append(problems, "Close is called inside the loop")
 			}
 			n := 0
-			for _, ci := range callsIn(fn) {
+			for i := range region {
+				ci := region[i].call
 				if invokeOf("midix.Writer", "Close")(ci) {
 					n++
 				}
-				if cc := ci.Common(); cc.IsInvoke() && typeName(cc.Value.Type()) == "midix.Writer" && ci != CL && dominatesInstr(CL, ci) {
+				if cc := ci.Common(); cc.IsInvoke() && typeName(cc.Value.Type()) == "midix.Writer" && ci != CL.call && regionDominates(li(CL), li(&region[i])) {
 					problems = append(problems, "the writer is used after Close")
 				}
 			}
@@ -314,38 +332,61 @@ func rulePlayLoop(c *Ctx) {
 			}
 			// every successful return is preceded by Close
 			for _, r := range returnsOf(fn) {
-				if isNilConst(r.Results[0]) && !dominatesInstr(CL, r) {
+				if isNilConst(retVal(r, 0)) && !dominatesInstr(li(CL).at(0), r) {
 					problems = append(problems, "a successful return is not preceded by Close: tracks without end-of-track")
 				}
 			}
 		}
 		// newKey(getKey()) feeds Apply's receiver
-		if nk, ok := A.Common().Args[0].(*ssa.Call); !ok || nk.Call.Args[0] != K.(*ssa.Call) {
+		recv := arg(A, 0)
+		if nk, ok := recv.v.(*ssa.Call); !ok || len(nk.Call.Args) != 1 {
 			problems = append(problems, "Apply's key is not newKey(args.getKey())")
-		} else if n, _, ok := loadedField(nk.Call.Value); !ok || n != "newKey" {
-			problems = append(problems, "the play key is not built by the injected newKey function")
+		} else {
+			if ka := tr.trace(recv.with(nk.Call.Args[0])); ka.v != K.call.Value() || !sameChain(ka.chain, K.chain) {
+				problems = append(problems, "Apply's key is not newKey(args.getKey())")
+			}
+			if n, _, ok := loadedField(nk.Call.Value); !ok || n != "newKey" {
+				problems = append(problems, "the play key is not built by the injected newKey function")
+			}
 		}
 		// Note(value, getVelocity(), keys from Apply)
-		if N.Common().Args[1] != GV.(*ssa.Call) {
+		if va := arg(N, 1); va.v != GV.call.Value() || !sameChain(va.chain, GV.chain) {
 			problems = append(problems, "Note's velocity is not args.getVelocity()")
 		}
-		if !c.copiesFrom(N.Common().Args[2], A.(*ssa.Call)) {
+		if !copiesFromL(tr, lval{N.call.Common().Args[2], N.fn, N.chain}, A) {
 			problems = append(problems, "the keys handed to Note are not the pitches Apply returned")
 		}
 		// Rest only when IsRest
-		if side, ok := c.branchSide(R.Block(), func(v ssa.Value) bool {
-			call, ok := v.(*ssa.Call)
-			return ok && calleeName(&call.Call) == "op.Instance.IsRest"
-		}); !ok || !side {
+		guarded := false
+		for _, g := range guardsAlong(li(R), 0) {
+			gl := tr.trace(g.cond)
+			if call, ok := gl.v.(*ssa.Call); ok && calleeName(&call.Call) == "op.Instance.IsRest" && g.want {
+				guarded = true
+			}
+		}
+		if !guarded {
 			problems = append(problems, "Rest is not guarded by instance.IsRest()")
 		}
-		// errors of Validate / writeWhenUpdated / Apply / Note returned
-		for label, ci := range map[string]ssa.CallInstruction{"Validate": V, "Apply": A, "Note": N} {
-			if !c.errorReturned(ci.(*ssa.Call)) {
+		// errors of Validate / writeWhenUpdated / Apply / Note returned (through every helper level)
+		errUp := func(rc *rcall) bool {
+			call, ok := rc.call.(*ssa.Call)
+			if !ok || !c.errorReturned(call) {
+				return false
+			}
+			for _, s := range rc.chain {
+				sc, ok := s.(*ssa.Call)
+				if !ok || !c.errorReturned(sc) {
+					return false
+				}
+			}
+			return true
+		}
+		for label, rc := range map[string]*rcall{"Validate": V, "Apply": A, "Note": N} {
+			if !errUp(rc) {
 				problems = append(problems, "the error of "+label+" is not returned")
 			}
 		}
-		if W.Common().Signature().Results().Len() == 1 && !c.errorReturned(W.(*ssa.Call)) {
+		if W.call.Common().Signature().Results().Len() == 1 && !errUp(W) {
 			problems = append(problems, "the error of writeWhenUpdated is not returned")
 		}
 	}
@@ -473,6 +514,87 @@ func (c *Ctx) derivesFromElement(v ssa.Value, slice ssa.Value, index ssa.Value) 
 		return false
 	}
 	return walk(v, 0)
+}
+
+// derivesFromElementL: the located value is (a load / field / copy of) slice[index] of the root function.
+func derivesFromElementL(tr *tracer, l lval, slice *ssa.Parameter, index ssa.Value) bool {
+	seen := map[ssa.Value]bool{}
+	var walk func(x lval, d int) bool
+	walk = func(x lval, d int) bool {
+		x = tr.trace(x)
+		if d > 16 || seen[x.v] {
+			return false
+		}
+		seen[x.v] = true
+		switch y := x.v.(type) {
+		case *ssa.IndexAddr:
+			b := tr.trace(x.with(y.X))
+			return len(x.chain) == 0 && len(b.chain) == 0 && b.v == ssa.Value(slice) && y.Index == index
+		case *ssa.Index:
+			b := tr.trace(x.with(y.X))
+			return len(x.chain) == 0 && len(b.chain) == 0 && b.v == ssa.Value(slice) && y.Index == index
+		case *ssa.UnOp:
+			return walk(x.with(y.X), d+1)
+		case *ssa.FieldAddr:
+			return walk(x.with(y.X), d+1)
+		case *ssa.Field:
+			return walk(x.with(y.X), d+1)
+		case *ssa.Alloc:
+			for _, r := range *y.Referrers() {
+				if st, ok := r.(*ssa.Store); ok && st.Addr == ssa.Value(y) && walk(x.with(st.Val), d+1) {
+					return true
+				}
+			}
+		}
+		return false
+	}
+	return walk(l, 0)
+}
+
+// copiesFromL: the located slice is result #0 of the call src, or a new slice of the same length filled element by
+// element at equal indices over the whole length from it (possibly inside a helper that receives the result).
+func copiesFromL(tr *tracer, l lval, src *rcall) bool {
+	isSrc := func(x lval) bool {
+		x = tr.trace(x)
+		ex, ok := x.v.(*ssa.Extract)
+		return ok && ex.Index == 0 && ex.Tuple == src.call.Value() && sameChain(x.chain, src.chain)
+	}
+	l = tr.trace(l)
+	if isSrc(l) {
+		return true
+	}
+	mk, ok := l.v.(*ssa.MakeSlice)
+	if !ok {
+		return false
+	}
+	isLenSrc := func(v ssa.Value) bool {
+		lc, ok := v.(*ssa.Call)
+		return ok && calleeName(&lc.Call) == "builtin.len" && isSrc(l.with(lc.Call.Args[0]))
+	}
+	if !isLenSrc(mk.Len) {
+		return false
+	}
+	okCopy := false
+	for _, r := range *mk.Referrers() {
+		ia, ok := r.(*ssa.IndexAddr)
+		if !ok {
+			continue
+		}
+		for _, rr := range *ia.Referrers() {
+			st, ok := rr.(*ssa.Store)
+			if !ok {
+				continue
+			}
+			from := indexOfLoad(stripConv(st.Val))
+			if from != nil && isSrc(l.with(from.X)) && from.Index == ia.Index {
+				lp := enclosingRangeLoop(st.Block())
+				if lp != nil && lp.index == ia.Index && isLenSrc(lp.bound) {
+					okCopy = true
+				}
+			}
+		}
+	}
+	return okCopy
 }
 
 // copiesFrom: slice v is filled, element by element at equal indices over its whole length, from result #0 of call (or is that result).
